@@ -35,3 +35,8 @@ _reg(ProdProp('C14', ['Ea.C14.offset_chain_injective', 'Ea.C14.jitter_nonneg_att
                       'Ea.C14.C14_partial', 'Ea.C14.jitter_negative_double_fires']))
 _reg(ProdProp('C16', ['Ea.C16.loop_iterations_bounded', 'Ea.C16.loopNC_fst', 'Ea.C16.interval_sat_returns',
                       'Ea.C16.interval_unsat_never_returns', 'Ea.C16.timeNext_outcomes', 'Ea.C16.C16_partial']))
+
+from props_tm import TmProp  # noqa: E402
+
+_reg(TmProp('C11', ['Ea.C11.placeholder'], ['sequential', 'limseq', 'dedup']))
+_reg(TmProp('C12', ['Ea.C12.placeholder'], ['parallel', 'limpar']))
